@@ -92,6 +92,8 @@ static void cells_full(int wl, int lat)
 			cell c = { qt, de, up, FS[fs], ML[ml], lazy, 0, lat, 0, wl, 0 };
 			add_cell(c);
 		}
+	/* raw UDP mode (no relay in between): the handshake switches to raw frames after the login */
+	for (int qt = 0; qt < 3; qt += 2) for (int lazy = 1; lazy >= 0; lazy--) { cell c = { qt, 0, 0, 0, 255, lazy, 1, lat, 0, wl, 0 }; add_cell(c); }
 }
 
 /* pairwise-covering subset of the grid (greedy, deterministic) */
@@ -125,6 +127,7 @@ static void cells_pairwise(int wl, int lat)
 		cell c = { best[0], best[1], best[2], FS[best[3]], ML[best[4]], 1 - best[5], 0, lat, 0, wl, 0 };
 		add_cell(c);
 	}
+	{ cell c = { 0, 0, 0, 0, 255, 1, 1, lat, 0, wl, 0 }; add_cell(c); }      /* raw UDP mode */
 }
 
 /* ---------------------------------------------------------------- C11: relay family */
@@ -169,7 +172,9 @@ typedef struct wpk { int side; int size; int at_ms; int compressible; int dst; }
 #define A_OUT 0x08080808u
 static const wpk WL0[] = { { 1, 60, 100, 0, A_SRV }, { 0, 1100, 150, 0, A_CLA }, { 1, 1100, 160, 0, A_SRV }, { 0, 200, 170, 1, A_CLA }, { 1, 200, 1500, 1, A_SRV }, { 0, 19, 1600, 0, A_CLA },
 	/* larger than any fixed 4 KB buffer on the way, compressible enough to fit 16 fragments everywhere */
-	{ 1, 5000, 1700, 1, A_SRV }, { 0, 5000, 1800, 1, A_CLA }, { 0, 20000, 2600, 1, A_CLA }, { 1, 20000, 2700, 1, A_SRV } };
+	{ 1, 5000, 1700, 1, A_SRV }, { 0, 5000, 1800, 1, A_CLA }, { 0, 20000, 2600, 1, A_CLA }, { 1, 20000, 2700, 1, A_SRV },
+	/* incompressible and larger than one raw UDP datagram (4096 bytes): cannot be carried, must be dropped, never delivered damaged */
+	{ 1, 6000, 3200, 0, A_SRV }, { 0, 6000, 3300, 0, A_CLA }, { 1, 100, 3600, 0, A_SRV }, { 0, 100, 3700, 0, A_CLA } };
 static const wpk WL1[] = { { 1, 1100, 100, 0, A_SRV }, { 1, 1100, 110, 0, A_SRV }, { 0, 1100, 120, 0, A_CLA }, { 0, 1100, 121, 0, A_CLA }, { 0, 1100, 122, 0, A_CLA }, { 0, 60, 123, 0, A_CLA },
 	{ 0, 60, 124, 0, A_CLA }, { 0, 60, 125, 0, A_CLA }, { 1, 1, 2500, 0, A_SRV }, { 1, 4000, 3000, 0, A_SRV }, { 0, 4000, 3500, 0, A_CLA }, { 1, 20, 6000, 0, A_SRV } };
 static const wpk WL2[] = { { 1, 700, 100, 0, A_CLB }, { 2, 300, 200, 0, A_CLA }, { 0, 500, 300, 0, A_CLB }, { 1, 64, 900, 1, A_SRV }, { 2, 1100, 1000, 0, A_SRV }, { 0, 64, 1100, 0, A_OUT } };
@@ -180,7 +185,7 @@ static const wpk WL3[] = { { 1, 40, 100, 0, A_SRV }, { 1, 300, 101, 0, A_SRV }, 
 static const wpk WL5[] = { { 1, 1100, 100, 0, A_SRV }, { 0, 1100, 100, 0, A_CLA }, { 1, 60, 4000, 0, A_SRV }, { 0, 60, 4100, 0, A_CLA }, { 1, 1100, 7000, 0, A_SRV }, { 0, 1100, 7001, 0, A_CLA } };
 /* C16: multi-fragment packets both ways so that a double append or a double ack would land in mid-packet */
 static const wpk WL6[] = { { 1, 700, 100, 0, A_SRV }, { 0, 700, 150, 0, A_CLA }, { 1, 300, 1200, 0, A_SRV }, { 0, 300, 1250, 0, A_CLA }, { 1, 200, 5000, 0, A_SRV }, { 0, 200, 5050, 0, A_CLA } };
-static const struct { const wpk *p; int n; } WLS[7] = { { WL0, 10 }, { WL1, 12 }, { WL2, 6 }, { WL3, 8 }, { WL0, 0 }, { WL5, 6 }, { WL6, 6 } };
+static const struct { const wpk *p; int n; } WLS[7] = { { WL0, 14 }, { WL1, 12 }, { WL2, 6 }, { WL3, 8 }, { WL0, 0 }, { WL5, 6 }, { WL6, 6 } };
 
 static int up_chunk_cap, down_frag_cap;
 static int WL_MUST[NS_MAXPK];   /* bytes per upstream query / downstream fragment in this cell */
@@ -460,8 +465,9 @@ static void mark_must(const cell *c)
 		int cl = ns_compressed_len(p, n);
 		int must = 1;
 		int via_up = (w->side != 0), via_down = (w->side == 0) || (w->dst == A_CLA || w->dst == A_CLB);
-		if (via_up && cl > 16 * up_chunk_cap) must = 0;
-		if (via_down && cl > 16 * down_frag_cap) must = 0;
+		int nfr = ca_w_conn() == CONN_RAW_UDP ? 1 : 16;         /* raw mode: one datagram, no fragmentation */
+		if (via_up && cl > nfr * up_chunk_cap) must = 0;
+		if (via_down && cl > nfr * down_frag_cap) must = 0;
 		if (w->size < 20) must = 0;                 /* runt: no complete IP header, routing undefined */
 		WL_MUST[i + 1] = must;
 	}
